@@ -496,7 +496,7 @@ func (g *gen) rangeStmt(depth int) []Node {
 	}
 	// body: show the bindings, optionally capture them into an outer variable
 	var body []Node
-	body = append(body, &Text{S: "{"})
+	body = append(body, &Text{S: "<r:"})
 	if n.Form >= 1 {
 		body = append(body, &Text{S: "k="}, &Print{E: Var{n.K}}, &Text{S: ";"})
 	}
@@ -532,12 +532,12 @@ func (g *gen) rangeStmt(depth int) []Node {
 		g.feat["capture-loop-var"] = true
 	}
 	body = append(body, g.list(depth+1)...)
-	body = append(body, &Text{S: "}"})
+	body = append(body, &Text{S: "/r>"})
 	n.Body = body
 	g.ctx = saveCtx
 	if g.r.Intn(2) == 0 {
 		n.HasElse = true
-		n.Else = append([]Node{&Text{S: "{else:"}}, append(g.list(depth+1), &Text{S: "}"})...)
+		n.Else = append([]Node{&Text{S: "<relse:"}}, append(g.list(depth+1), &Text{S: ">"})...)
 		g.feat["range-else"] = true
 	}
 	g.pop()
